@@ -109,18 +109,33 @@ def ctxEntry (al : AList) (km : List (String × String)) (d : Dest) (g : String)
       if some (j + 1) == a.number then compAST [⟨a, cls⟩] else [])⟩
   | _ => ⟨g, [compAST [⟨a, cls⟩]]⟩
 
+def kindOfDest : Dest → Kind
+  | .base => .base
+  | .lig => .liga
+  | .mark => .mkmk
+
+/-- the statements of one (context, anchor key) -/
+def ctxSel (atts : List (String × String × NA)) (ck : String × String) : List (String × String × NA) :=
+  atts.filter (fun t => t.1 == ck.1 && t.2.2.key == ck.2)
+
+/-- one (context, anchor key) of the loop; an exception ends everything -/
+def ctxWorkStep (al : AList) (km : List (String × String)) (feat prefix_ : String) (d : Dest)
+    (atts : List (String × String × NA)) (acc : Except Err CtxFeature) (ck : String × String) : Except Err CtxFeature :=
+  match acc with
+  | .error e => .error e
+  | .ok s =>
+    ctxStep km feat prefix_ (kindOfDest d) ck.1 ck.2 ((ctxSel atts ck).map (·.2.1))
+      ((ctxSel atts ck).map (fun t => ctxEntry al km d t.2.1 t.2.2)) s
+
+/-- the (context, key) pairs in processing order: longest context first; keys in order of first occurrence -/
+def ctxWork (atts : List (String × String × NA)) : List (String × String) :=
+  (ctxOrder atts).flatMap (fun c =>
+    (dedupFirst ((atts.filter (fun t => t.1 == c)).map (fun t => t.2.2.key))).map (fun k => (c, k)))
+
 /-- the loop over the contexts of one destination (longest context first) and, inside, over the anchor keys -/
 def ctxDest (al : AList) (km : List (String × String)) (feat prefix_ : String) (d : Dest)
     (atts : List (String × String × NA)) (st : CtxFeature) : Except Err CtxFeature :=
-  let work : List (String × String) := (ctxOrder atts).flatMap (fun c =>
-    (dedupFirst ((atts.filter (fun t => t.1 == c)).map (fun t => t.2.2.key))).map (fun k => (c, k)))
-  work.foldl (fun (acc : Except Err CtxFeature) ck =>
-    match acc with
-    | .error e => .error e
-    | .ok s =>
-      let sel := atts.filter (fun t => t.1 == ck.1 && t.2.2.key == ck.2)
-      ctxStep km feat prefix_ (match d with | .base => Kind.base | .lig => Kind.liga | .mark => Kind.mkmk) ck.1 ck.2
-        (sel.map (·.2.1)) (sel.map (fun t => ctxEntry al km d t.2.1 t.2.2)) s) (.ok st)
+  (ctxWork atts).foldl (ctxWorkStep al km feat prefix_ d atts) (.ok st)
 
 def ofDest (atts : List (Dest × String × String × NA)) (d : Dest) : List (String × String × NA) :=
   (atts.filter (fun t => t.1 == d)).map (·.2)
